@@ -1,6 +1,7 @@
 use super::StorageData;
 use super::StorageSlice;
 use crate::DbError;
+use crate::DbErrorType;
 
 pub struct MemoryStorage {
     buffer: Vec<u8>,
@@ -55,8 +56,19 @@ impl StorageData for MemoryStorage {
     }
 
     fn read(&'_ self, pos: u64, value_len: u64) -> Result<StorageSlice<'_>, DbError> {
-        let end = pos + value_len;
-        Ok(StorageSlice::from(&self.buffer[pos as usize..end as usize]))
+        let slice = pos
+            .checked_add(value_len)
+            .and_then(|end| self.buffer.get(pos as usize..end as usize))
+            .ok_or_else(|| {
+                DbError::storage(
+                    DbErrorType::OutOfBounds,
+                    format!(
+                        "Read of {value_len} bytes at {pos} is out of bounds ({})",
+                        self.buffer.len()
+                    ),
+                )
+            })?;
+        Ok(StorageSlice::from(slice))
     }
 
     fn rename(&mut self, new_name: &str) -> Result<(), DbError> {
